@@ -97,6 +97,10 @@ func (fc *FCtx) evalCall(e *ast.CallExpr, st *State) []Val {
 		r.GoT = fc.resT(e)
 		return []Val{r}
 	}
+	// abstract repo function: uninterpreted total function of its arguments
+	if c := fc.E.cs.Funcs[key]; c != nil && c.Flags["abstract"] != "" {
+		return fc.pureExternCall(name, fn, e, recvExpr, st)
+	}
 	// contract call
 	if c := fc.E.cs.Funcs[key]; c != nil && c.Flags["inline"] == "" {
 		return fc.callByContract(c, fn, sig, e, recvExpr, st)
@@ -142,7 +146,8 @@ var pureExternPrefixes = []string{
 	"(github.com/cosmos/cosmos-sdk/types.AccAddress).Bytes", "(github.com/cosmos/cosmos-sdk/types.ValAddress).Bytes",
 	"github.com/cosmos/cosmos-sdk/x/auth/types.NewModuleAddress",
 	"(github.com/cosmos/cosmos-sdk/x/staking/types.ValidatorI).", "(github.com/cosmos/cosmos-sdk/types.ModuleAccountI).", "(github.com/cosmos/cosmos-sdk/types.AccountI).", "(github.com/cosmos/cosmos-sdk/x/staking/types.Validator).",
-	"github.com/cometbft/cometbft/crypto/tmhash.",
+	"github.com/cometbft/cometbft/crypto/tmhash.", "github.com/cometbft/cometbft/crypto/merkle.",
+	"(github.com/cometbft/cometbft/", "(*github.com/cometbft/cometbft/", "encoding/binary.Varint", "encoding/binary.Uvarint", "encoding/binary.PutUvarint",
 	"(*github.com/bandprotocol/chain/v3/app.BandApp).AppCodec",
 	"(*github.com/cometbft/cometbft/abci/types.ResponseQuery).",
 }
@@ -955,5 +960,8 @@ var extAliases = map[string]struct {
 	"Coins.Add":      {"(github.com/cosmos/cosmos-sdk/types.Coins).Add", "sdk.Coins"},
 	"Coins.Sub":      {"(github.com/cosmos/cosmos-sdk/types.Coins).Sub", "sdk.Coins"},
 	"Coins.IsAnyGT":  {"(github.com/cosmos/cosmos-sdk/types.Coins).IsAnyGT", "Bool"},
+	"binary.Varint":  {"encoding/binary.Varint", "Int"},
+	"binary.Varint#1": {"encoding/binary.Varint", "Int"},
+	"merkle.HashFromByteSlices": {"github.com/cometbft/cometbft/crypto/merkle.HashFromByteSlices", "Bz"},
 	"ValidatorI.GetTokens": {"(github.com/cosmos/cosmos-sdk/x/staking/types.ValidatorI).GetTokens", "Int"},
 }
